@@ -16,6 +16,7 @@ import (
 	"sync"
 	"sync/atomic"
 	"time"
+	"verifharness/peers"
 
 	"github.com/pkg/sftp"
 
@@ -470,7 +471,7 @@ func c16StartPair(cs c16Case, h sftp.Handlers, workDir string, onName func(int))
 		if workDir != "" {
 			so = append(so, sftp.WithServerWorkingDirectory(workDir))
 		}
-		srv, err := sftp.NewServer(end, so...)
+		srv, err := peers.NewOSServer(end, so...)
 		if err != nil {
 			return p, err
 		}
@@ -1326,7 +1327,7 @@ func checkC16(c *lib.Ctx) {
 	if len(jobs) == 0 {
 		return
 	}
-	root, err := os.MkdirTemp("", "vh-c16-")
+	root, err := lib.MkScratch("vh-c16-")
 	if err != nil {
 		r.Fail(lib.Failure{Kind: "tie", Key: "tmpdir", What: err.Error()})
 		return
